@@ -518,3 +518,340 @@ def check_c19(pid, replay=None):
 
 
 REGISTRY["C19"] = check_c19
+
+
+# ---------------------------------------------------------------------------------------------- C16 flow descriptions
+
+def fd_render(rule, rng=None):
+    """abstract rule -> IPFilterRule string (spacing varied when rng is given)"""
+    def addr(a):
+        if a["k"] in ("any", "assigned"):
+            return a["k"]
+        ip = ".".join(str(x) for x in a["ip"])
+        return ip if a["k"] == "host" else "%s/%d" % (ip, a["n"])
+
+    def ports(ps):
+        return ",".join(str(p["lo"]) if p["single"] else "%d-%d" % (p["lo"], p["hi"]) for p in ps)
+    toks = ["permit", rule["dir"], "ip" if rule["proto"] == -1 else str(rule["proto"]), "from", addr(rule["src"])]
+    if rule["sports"]:
+        toks.append(ports(rule["sports"]))
+    toks += ["to", addr(rule["dst"])]
+    if rule["dports"]:
+        toks.append(ports(rule["dports"]))
+    if rng is None:
+        return " ".join(toks)
+    s = rng.choice(["", " ", "\t"]) if rng.random() < 0.2 else ""
+    for i, t in enumerate(toks):
+        s += t + (rng.choice([" ", " ", "  ", "\t", "   "]) if i < len(toks) - 1 else rng.choice(["", "", " "]))
+    return s
+
+
+def fd_random_rule(rng):
+    def addr():
+        k = rng.choice(["any", "assigned", "host", "cidr", "cidr"])
+        ip = [rng.randrange(256) for _ in range(4)]
+        if k in ("any", "assigned"):
+            return {"k": k, "ip": [0, 0, 0, 0], "n": 0}
+        return {"k": k, "ip": ip, "n": 32 if k == "host" else rng.randrange(33)}
+
+    def ports():
+        n = rng.choice([0, 0, 1, 1, 2, 3, 5, 8])
+        out = []
+        for _ in range(n):
+            if rng.random() < 0.5:
+                p = rng.choice([0, 1, 80, 65535, rng.randrange(65536)])
+                out.append({"lo": p, "hi": p, "single": True})
+            else:
+                lo = rng.randrange(65536)
+                hi = rng.randrange(lo, 65536)
+                out.append({"lo": lo, "hi": hi, "single": False})
+        return out
+    return {"dir": rng.choice(["in", "out"]), "proto": rng.choice([-1, 6, 17, rng.randrange(256)]), "src": addr(), "sports": ports(),
+            "dst": addr(), "dports": ports()}
+
+
+def fd_mutations(s, rng):
+    """near-miss mutations of a valid rule: token dropped / duplicated / misspelt, numbers out of range, stray bytes"""
+    toks = s.split()
+    out = []
+    for i in range(len(toks)):
+        out.append(" ".join(toks[:i] + toks[i + 1:]))
+        out.append(" ".join(toks[:i] + [toks[i], toks[i]] + toks[i + 1:]))
+        out.append(" ".join(toks[:i] + [toks[i][:-1]] + toks[i + 1:]))
+        out.append(" ".join(toks[:i] + [toks[i] + rng.choice(["x", ",", "-", "/", "/33", ".", "\x00", "\xff"])] + toks[i + 1:]))
+    out += [s.replace("permit", "deny"), s.replace("from", "form"), s + " 99999", s.replace(" to ", " to to "), s.upper(),
+            s.replace("ip", "256"), s.replace("any", "::1"), s.replace("any", "1.2.3"), s.replace("any", "1.2.3.4/"), s.replace("any", "300.1.1.1"),
+            "", " ", "permit", "permit out", "permit out ip from", "permit out ip from any to", ",", "-", "permit out ip from any , to any"]
+    return out
+
+
+def check_c16(pid, replay=None):
+    import random
+    t0 = time.time()
+    thorough = vlib.tier() == "thorough"
+    binary = vlib.build_test_binary("internal/forwarder")
+    mods = ["FlowDesc.tla"]
+    if replay:
+        with open(replay) as fh:
+            vec = json.load(fh)["vector"]
+        fout, info = vlib.run_l0(binary, "TestVerifFlowDesc", [vec], "replay")
+        viols = judge_l0(pid, vlib.read_ndjson(fout), "Trace_FlowDesc", mods, "c16r")
+        if info["rc"] != 0 or any(t.startswith("C16:") for v in viols for t in v["tags"]):
+            print("VIOLATION property=%s replay=%s" % (pid, replay))
+            return 1
+        log("replay: accepted on the current tree")
+        return 0
+    fams = ["proto", "src", "dst", "sport", "dport"]
+    rules, states = [], 0
+
+    def one(f):
+        cfg = 'SPECIFICATION Spec\nCONSTANTS\n F = "%s"\nINVARIANT RefSane\nCHECK_DEADLOCK FALSE\n' % f
+        return vlib.tlc_vectors("MC_FlowDesc.tla", "MC.cfg", mods, "c16-" + f, cfg_text=cfg, workers=2)
+    with cf.ThreadPoolExecutor(len(fams)) as ex:
+        for vs, st in ex.map(one, fams):
+            rules += vs
+            states += st["distinct"]
+    log("MC_FlowDesc: %d abstract rules enumerated by TLC (reference sane on all of them)" % len(rules))
+    rng = random.Random(vlib.seed())
+    inputs = []
+    for i, r in enumerate(rules):
+        for swap in (False, True):
+            inputs.append({"id": "mc-%d-%d" % (i, swap), "s": fd_render(r), "swap": swap, "rule": r})
+        inputs.append({"id": "mc-%d-sp" % i, "s": fd_render(r, rng), "swap": rng.random() < 0.5, "rule": r})
+    nrand = 100000 if thorough else 12000
+    for i in range(nrand):
+        r = fd_random_rule(rng)
+        inputs.append({"id": "rnd-%d" % i, "s": fd_render(r, rng if rng.random() < 0.5 else None), "swap": rng.random() < 0.5, "rule": r})
+    ngarb = 0
+    for i in range(400 if thorough else 60):
+        base = fd_render(fd_random_rule(rng))
+        for j, m in enumerate(fd_mutations(base, rng)):
+            inputs.append({"id": "mut-%d-%d" % (i, j), "s": m, "swap": rng.random() < 0.5, "rule": None})
+            ngarb += 1
+    for i in range(5000 if thorough else 500):
+        n = rng.choice([0, 1, 5, 40, 200, 5000])
+        s = bytes(rng.randrange(256) for _ in range(n)).decode("latin1")
+        inputs.append({"id": "raw-%d" % i, "s": s, "swap": False, "rule": None})
+        ngarb += 1
+    fout, info = vlib.run_l0(binary, "TestVerifFlowDesc", inputs, "c16")
+    outs = vlib.read_ndjson(fout)
+    if info["rc"] != 0 and "INFRA" in info["tail"]:
+        raise Infra("flow-description executor failed: " + info["tail"])
+    viols = []
+    if info["rc"] != 0 or len(outs) != len(inputs):
+        # the executor died on an input (a fault nobody recovered): that input is the finding
+        bad = inputs[len(outs)] if len(outs) < len(inputs) else inputs[-1]
+        viols.append({"tr": bad["id"], "i": len(outs) + 1, "tags": ["C16:flow-description handling faulted (process died)"], "line": bad})
+    viols += judge_l0(pid, outs, "Trace_FlowDesc", mods, "c16")
+    n = report_l0(pid, viols, lambda v: {"property": pid, "kind": "flowdesc", "tags": v["tags"],
+                                         "vector": {k: v["line"].get(k) for k in ("id", "s", "swap", "rule")}, "recorded": v["line"]})
+    cov = {"states": states, "transitions": states, "traces_validated_against_impl": len(outs),
+           "samples": [{"s": o["s"], "swap": o["swap"], "packed": o["packed"]} for o in (outs[0], outs[len(rules)], outs[3 * len(rules) + 5])],
+           "families": fams, "mc_rules": len(rules), "random_rules": nrand, "garbage_strings": ngarb, "exhaustive": False,
+           "checker_cmd": "tlc MC_FlowDesc.tla (INVARIANT RefSane) per family; tlc Trace_FlowDesc.tla"}
+    vlib.write_evidence(pid, "model_checking", cov, time.time() - t0, n, [
+        "FlowDesc.tla states what a rule denotes (prefix masking by octet arithmetic, port ranges, uplink exchange)",
+        "packed form read by an independent attribute walker and cross-checked with go-gtp5gnl DecodeFlowDesc",
+        "IPv6 and 'deny' are outside the supported form; garbage strings are only required not to fault"])
+    return 1 if n else 0
+
+
+REGISTRY["C16"] = check_c16
+
+
+# ---------------------------------------------------------------------------------------------- C20 configuration
+
+def cfg_render(st, rng):
+    """abstract document (field -> class) -> (yaml text, want record)"""
+    want = {"version": "", "addr": "", "nodeid": "", "rt": "", "maxrt": 0, "forwarder": "", "level": "", "ifaddrs": [], "iftypes": [], "dnns": [], "cidrs": []}
+    y = []
+
+    def scalar(key, cls, ok, bad, indent=""):
+        if cls == "absent":
+            return None
+        if cls == "ok":
+            return '%s%s: %s' % (indent, key, ok)
+        if cls == "empty":
+            return '%s%s: ""' % (indent, key)
+        if cls == "bad":
+            return '%s%s: "%s"' % (indent, key, bad)
+        if cls == "mistyped":
+            return '%s%s:\n%s  - a\n%s  - b' % (indent, key, indent, indent)
+        raise ValueError(cls)
+
+    def add(line):
+        if line is not None:
+            y.append(line)
+    add(scalar("version", st["version"], "1.0.3", rng.choice(["1.0.0", "1.0.4", "2", "1.0.3 "])))
+    if st["version"] == "ok":
+        want["version"] = "1.0.3"
+    add("description: UPF configuration rendered by the verification harness")
+    if st["pfcp"] == "ok":
+        y.append("pfcp:")
+        a = rng.choice(["127.0.0.8", "10.100.200.3", "localhost", "upf.free5gc.org"])
+        add(scalar("addr", st["addr"], a, rng.choice(["bad host!", "a b", "-x-.", "http://x/"]), "  "))
+        if st["addr"] == "ok":
+            want["addr"] = a
+        n = rng.choice(["127.0.0.8", "localhost", "127.0.0.1"])
+        if st["nodeid"] == "unresolvable":
+            y.append("  nodeID: no-such-host.invalid")
+        else:
+            add(scalar("nodeID", st["nodeid"], n, rng.choice(["bad host!", "a b", "-x-."]), "  "))
+        if st["nodeid"] == "ok":
+            want["nodeid"] = n
+        rt, rts = rng.choice([("1s", "1s"), ("500ms", "500ms"), ("2m", "2m0s"), ("3s", "3s")])
+        if st["rt"] == "ok":
+            y.append("  retransTimeout: %s" % rt)
+            want["rt"] = rts
+        elif st["rt"] == "zero":
+            y.append("  retransTimeout: 0s")
+        elif st["rt"] == "mistyped":
+            y.append("  retransTimeout: soon")
+        if st["maxrt"] == "ok":
+            m = rng.choice([0, 1, 3, 255])
+            y.append("  maxRetrans: %d" % m)
+            want["maxrt"] = m
+        elif st["maxrt"] == "range":
+            y.append("  maxRetrans: %d" % rng.choice([256, 300, -1, 70000]))
+        elif st["maxrt"] == "mistyped":
+            y.append("  maxRetrans: many")
+    if st["gtpu"] == "ok":
+        y.append("gtpu:")
+        add(scalar("forwarder", st["fwd"], "gtp5g", rng.choice(["ovs", "gtp5g2", "GTP5G", "empty"]), "  "))
+        if st["fwd"] == "ok":
+            want["forwarder"] = "gtp5g"
+        il = st["iflist"]
+        ents = []
+        if il == "empty":
+            y.append("  ifList: []")
+        elif il != "absent":
+            y.append("  ifList:")
+            good1 = {"addr": rng.choice(["127.0.0.8", "10.0.0.7", "gtpu.example.org"]), "type": "N3"}
+            good2 = {"addr": "10.0.1.9", "type": "N9", "name": "upf.5gc.nctu.me", "mtu": 1400}
+            if il == "ok1":
+                ents = [good1]
+            elif il == "ok2":
+                ents = [good1, good2]
+            elif il == "okbadaddr":
+                ents = [good1, {"addr": "bad host!", "type": "N3"}]
+            elif il == "okbadtype":
+                ents = [good1, {"addr": "10.0.0.9", "type": rng.choice(["N6", "n3", "N4", ""])}]
+            elif il == "notype":
+                ents = [{"addr": "10.0.0.9"}]
+            elif il == "noaddr":
+                ents = [{"type": "N3"}]
+            for e in ents:
+                first = True
+                for k, v in e.items():
+                    y.append("    %s %s: %s" % ("-" if first else " ", k, json.dumps(v)))
+                    first = False
+        want["ifaddrs"] = [e.get("addr", "") for e in ents]
+        want["iftypes"] = [e.get("type", "") for e in ents]
+    dl = st["dnn"]
+    ents = []
+    if dl == "empty":
+        y.append("dnnList: []")
+    elif dl != "absent":
+        y.append("dnnList:")
+        good1 = {"dnn": "internet", "cidr": rng.choice(["10.60.0.0/24", "10.61.0.0/16", "0.0.0.0/0"])}
+        good2 = {"dnn": "ims", "cidr": "10.62.0.1/32", "natifname": "eth0"}
+        if dl == "ok1":
+            ents = [good1]
+        elif dl == "ok2":
+            ents = [good1, good2]
+        elif dl == "okbadcidr":
+            ents = [good1, {"dnn": "x", "cidr": rng.choice(["10.60.0.0/33", "10.60.0.0", "abc", "300.1.1.0/24"])}]
+        elif dl == "badcidr":
+            ents = [{"dnn": "x", "cidr": rng.choice(["10.60.0.0/33", "10.60.0.0", "abc"])}]
+        elif dl == "nodnn":
+            ents = [{"cidr": "10.60.0.0/24"}]
+        elif dl == "nocidr":
+            ents = [{"dnn": "internet"}]
+        for e in ents:
+            first = True
+            for k, v in e.items():
+                y.append("  %s %s: %s" % ("-" if first else " ", k, json.dumps(v)))
+                first = False
+    want["dnns"] = [e.get("dnn", "") for e in ents]
+    want["cidrs"] = [e.get("cidr", "") for e in ents]
+    if st["logger"] == "ok":
+        y.append("logger:")
+        y.append("  enable: true")
+        lv = rng.choice(["trace", "debug", "info", "warn", "error", "fatal", "panic"])
+        add(scalar("level", st["level"], lv, rng.choice(["verbose", "INFO", "warning", "off"]), "  "))
+        if st["level"] == "ok":
+            want["level"] = lv
+        y.append("  reportCaller: false")
+    return "\n".join(y) + "\n", want
+
+
+def check_c20(pid, replay=None):
+    import random
+    t0 = time.time()
+    thorough = vlib.tier() == "thorough"
+    binary = vlib.build_test_binary("pkg/factory")
+    mods = ["Config.tla"]
+    if replay:
+        with open(replay) as fh:
+            vec = json.load(fh)["vector"]
+        fout, info = vlib.run_l0(binary, "TestVerifConfig", [vec], "replay")
+        viols = judge_l0(pid, vlib.read_ndjson(fout), "Trace_Config", mods, "c20r")
+        if info["rc"] != 0 or any(t.startswith("C20:") for v in viols for t in v["tags"]):
+            print("VIOLATION property=%s replay=%s" % (pid, replay))
+            return 1
+        log("replay: accepted on the current tree")
+        return 0
+    k = 3 if thorough else 2
+    cfg = 'SPECIFICATION Spec\nCONSTANTS\n MaxFaults = %d\nINVARIANT RefSane\nCHECK_DEADLOCK FALSE\n' % k
+    states, st = vlib.tlc_vectors("MC_Config.tla", "MC.cfg", mods, "c20", cfg_text=cfg, workers=4)
+    log("MC_Config: %d abstract documents with <= %d faults enumerated by TLC" % (len(states), k))
+    rng = random.Random(vlib.seed())
+    inputs = []
+    reps = 3
+    for i, s in enumerate(states):
+        for j in range(reps):
+            y, want = cfg_render(s, rng)
+            inputs.append({"id": "mc-%d-%d" % (i, j), "yaml": y, "st": s, "want": want})
+    # seeded documents with more simultaneous faults (outside TLC's bound), judged by the same reference
+    import itertools
+    classes = {"version": ["ok", "absent", "empty", "bad", "mistyped"], "pfcp": ["ok", "absent"], "addr": ["ok", "absent", "empty", "bad", "mistyped"],
+               "nodeid": ["ok", "absent", "empty", "bad", "mistyped", "unresolvable"], "rt": ["ok", "absent", "zero", "mistyped"],
+               "maxrt": ["ok", "absent", "range", "mistyped"], "gtpu": ["ok", "absent"], "fwd": ["ok", "absent", "empty", "bad", "mistyped"],
+               "iflist": ["absent", "empty", "ok1", "ok2", "okbadaddr", "okbadtype", "notype", "noaddr"],
+               "dnn": ["absent", "empty", "ok1", "ok2", "okbadcidr", "badcidr", "nodnn", "nocidr"], "logger": ["ok", "absent"],
+               "level": ["ok", "absent", "empty", "bad", "mistyped"]}
+    good = {"version": "ok", "pfcp": "ok", "addr": "ok", "nodeid": "ok", "rt": "ok", "maxrt": "ok", "gtpu": "ok", "fwd": "ok", "iflist": "ok1", "dnn": "ok1", "logger": "ok", "level": "ok"}
+    for i in range(20000 if thorough else 3000):
+        s = dict(good)
+        for f in rng.sample(sorted(classes), rng.randint(0, 5)):
+            s[f] = rng.choice(classes[f])
+        if s["pfcp"] == "absent":
+            s.update(addr="ok", nodeid="ok", rt="ok", maxrt="ok")
+        if s["gtpu"] == "absent":
+            s.update(fwd="ok", iflist="ok1")
+        if s["logger"] == "absent":
+            s["level"] = "ok"
+        y, want = cfg_render(s, rng)
+        inputs.append({"id": "rnd-%d" % i, "yaml": y, "st": s, "want": want})
+    fout, info = vlib.run_l0(binary, "TestVerifConfig", inputs, "c20")
+    if info["rc"] != 0:
+        raise Infra("config executor failed: " + info["tail"])
+    outs = vlib.read_ndjson(fout)
+    if len(outs) != len(inputs):
+        raise Infra("config executor: %d of %d documents read" % (len(outs), len(inputs)))
+    byid = {i["id"]: i for i in inputs}
+    viols = judge_l0(pid, outs, "Trace_Config", mods, "c20")
+    n = report_l0(pid, viols, lambda v: {"property": pid, "kind": "config", "tags": v["tags"], "vector": byid[v["line"]["id"]], "recorded": v["line"]})
+    acc = sum(1 for o in outs if o["accepted"])
+    cov = {"states": st["distinct"], "transitions": st["generated"], "traces_validated_against_impl": len(outs),
+           "samples": [{"st": o["st"], "accepted": o["accepted"]} for o in (outs[0], outs[len(outs) // 3], outs[-1])] + [{"yaml": inputs[7]["yaml"]}],
+           "max_faults_exhaustive": k, "documents_accepted": acc, "documents_rejected": len(outs) - acc, "random_documents": len(inputs) - reps * len(states),
+           "exhaustive": False, "checker_cmd": "tlc MC_Config.tla (INVARIANT RefSane); tlc Trace_Config.tla",
+           "not_covered_here": "gtp5g version window (decided by the simulated-netlink part of this check when present)"}
+    vlib.write_evidence(pid, "model_checking", cov, time.time() - t0, n, [
+        "Config.tla transcribes the statement; documents it is silent on (no interface list, no DNN list, retry count out of range) are not judged",
+        "node-id resolution uses IP literals and localhost only (sandbox has no DNS); 'no-such-host.invalid' must not resolve"])
+    return 1 if n else 0
+
+
+REGISTRY["C20"] = check_c20
